@@ -4289,11 +4289,21 @@ fn expand_entity(
     path.push(name.to_string());
     for value in entity.borrow().values().unwrap_or_default() {
         match &value {
-            XmlEntityValue::Character(v, r) => match r {
-                10 => parsed.push(char_from_char10(v)?),
-                16 => parsed.push(char_from_char16(v)?),
-                _ => unreachable!(),
-            },
+            XmlEntityValue::Character(v, r) => {
+                // A character reference in an entity value is expanded when the entity is
+                // declared: in the replacement text it is a literal character, and a white
+                // space character there is normalized like one typed literally.
+                let ch = match r {
+                    10 => char_from_char10(v)?,
+                    16 => char_from_char16(v)?,
+                    _ => unreachable!(),
+                };
+                if normalize && matches!(ch, '\t' | '\r' | '\n') {
+                    parsed.push(' ');
+                } else {
+                    parsed.push(ch);
+                }
+            }
             XmlEntityValue::Entity(v) => {
                 let v = expand_entity(v, context, normalize, path, expanded)?;
                 parsed.push_str(v.as_str());
